@@ -133,6 +133,63 @@ def run_history(ins, outs, steps, semantic=None):
     return cases, problems, hashes
 
 
+def mixed_pool(rng):
+    """A pool whose requests resolve to DIFFERENT final opsets: an inlined opset-13 model, a function and a plain v17 operator whose
+    signatures change at 18, next to operators of newer modules.  Returns the list of requests (inputs, outputs)."""
+    import spox.opset.ai.onnx.v17 as op17
+    import spox.opset.ai.onnx.v19 as op19
+    import spox.opset.ai.onnx.v21 as op21
+    from onnx import TensorProto as TP, helper as oh
+    from spox._function import to_function
+
+    g = oh.make_graph([oh.make_node("ReduceMean", ["x"], ["y"], axes=[1], keepdims=0)], "g",
+                      [oh.make_tensor_value_info("x", TP.FLOAT, [2, 3])], [oh.make_tensor_value_info("y", TP.FLOAT, [2])])
+    m13 = oh.make_model(g, opset_imports=[oh.make_operatorsetid("", 13)], ir_version=8)
+    x = B.argument(B.Tensor(np.float32, (2, 3)))
+    (inl,) = B.inline(m13)(x).values()
+    (f,) = to_function("Fm", "verif.fun")(lambda a: [op17.reduce_max(a, axes=[1], keepdims=0)])(x)
+    old = op17.reduce_min(x, axes=[0], keepdims=0)
+    n19, n21 = op19.identity(x), op21.identity(x)
+    reqs = [({"x": x}, {"i": inl}), ({"x": x}, {"i": inl, "n": n19}), ({"x": x}, {"f": f}), ({"x": x}, {"f": f, "n": n21}),
+            ({"x": x}, {"o": old, "n": n19}), ({"x": x}, {"i": inl, "f": f, "o": old}), ({"x": x}, {"i": inl, "n": n21})]
+    return reqs
+
+
+def mixed_histories(run, n):
+    """The same requests in different orders (fresh pools): outcome and bytes of a request must not depend on what was built before."""
+    import warnings
+    problems, n_builds = [], 0
+    for _ in range(n):
+        base = None
+        for variant in range(3):
+            with warnings.catch_warnings():
+                warnings.simplefilter("ignore")
+                reqs = mixed_pool(run.rng)
+                order = list(range(len(reqs)))
+                if variant == 1:
+                    order.reverse()
+                elif variant == 2:
+                    run.rng.shuffle(order)
+                order = order + order[:3]      # and some requests once more
+                got = {}
+                for k in order:
+                    i2, o2 = reqs[k]
+                    impl, mp, exc = B.outcome(lambda: B.build(i2, o2))
+                    n_builds += 1
+                    h = hashlib.sha256(mp.SerializeToString(deterministic=True)).hexdigest() if mp is not None else impl.split(":")[0]
+                    if k in got and got[k] != h:
+                        problems.append(("C12/mixed-opset-rebuild-differs", f"request {k} of the mixed-opset pool gave {got[k][:24]} first and {h[:24]} "
+                                         f"when built again later in the same process (order {order})", {"order": order, "request": k}))
+                    got.setdefault(k, h)
+            if base is None:
+                base = got
+            elif got != base:
+                k = next(k for k in got if got[k] != base.get(k))
+                problems.append(("C12/mixed-opset-history-dependent", f"request {k} of the mixed-opset pool gives {base.get(k, '')[:24]} when the pool is "
+                                 f"built in order 0..6 but {got[k][:24]} in order {order}", {"order": order, "request": k}))
+    return problems, n_builds
+
+
 def child(seed, n, prealloc):
     junk = [object() for _ in range(prealloc)]  # different amounts of prior allocation shift object addresses
     run = Run("C12", "quick", seed)
@@ -165,6 +222,10 @@ def run(run: Run) -> int:
         for key, what, si in problems:
             n_prob += 1
             run.fail("impl", key, what, {"history": hi, "step": si, "case": B.describe(cases[si])})
+    mprobs, n_mixed = mixed_histories(run, 4 if run.tier == "quick" else 40)
+    for key, what, det in mprobs[:5]:
+        n_prob += 1
+        run.fail("impl", key, what, det)
     mism = B.correspondence(run, "c12", all_cases)
     for i in mism[:5]:
         run.fail("corr", f"C12/model-vs-impl/{i}", "model and implementation disagree on a build inside a history", B.describe(all_cases[i]))
@@ -188,7 +249,7 @@ def run(run: Run) -> int:
         "rule": "histories of 3-7 builds over a shared pool of Vars (succeeding, missing inputs, one Var under two names, output "
                 "named like an input, repeated requests, both drop values); distinct built models by rendering",
         "histories": nh, "traces_validated_against_impl": len([c for c in all_cases if c.coq is not None]) - len(mism),
-        "disagreements_checked": len(mism), "purity_problems": n_prob,
+        "disagreements_checked": len(mism), "purity_problems": n_prob, "mixed_opset_history_builds": n_mixed,
         "fresh_process_repeats": {"histories": nchild, "hash_seeds": 4, "prior_allocation": [0, 1000, 50000, 7]},
         "input_distribution": {"outcomes": dict(hist), "operators": g.hist},
         "samples": [B.describe(c) for c in all_cases[:2]],
